@@ -9,6 +9,8 @@ added in other orders (metamorphic clause 8).
 from __future__ import annotations
 
 import itertools
+import json
+import zlib
 
 from antismash.common.secmet.features.candidate_cluster.structures import CandidateClusterKind as K
 
@@ -35,7 +37,7 @@ ASSUMPTIONS = [
 ]
 REQUIRED = ["op:coverage", "op:members-once", "op:location", "op:hybrid", "op:interleaved", "op:neighbouring", "op:single", "op:unique",
             "op:order", "kind:single", "kind:neighbouring", "kind:interleaved", "kind:chemical_hybrid",
-            "shape:group-across-origin", "shape:identical-coordinates"]
+            "shape:group-across-origin", "shape:identical-coordinates", "shape:cores-overlap-by-one-base"]
 
 
 def gen_case(rng):
@@ -118,7 +120,37 @@ def gen_case(rng):
             protos.append({"first": int(gene["name"][1:]), "ncore": 1, "nb": 0, "product": product, "sideloaded": sideloaded,
                            "core": [list(gene["loc"]["parts"][0])], "extent": [list(e) for e in target],
                            "borrowed_extent": True})
-    return {"L": length, "circular": circular, "genes": genes, "protoclusters": protos}
+    case = {"L": length, "circular": circular, "genes": genes, "protoclusters": protos}
+    _tighten(case, step, glen)
+    return case
+
+
+def _tighten(case, step, glen):
+    """ in every third case some genes reach one base into the next gene, up to it, or stop one base short of it, and
+        every core and extent that ended with such a gene ends with it still: cores then overlap by a single base,
+        touch, or miss each other by one. Chosen from the case itself, so that no further draw is made. """
+    crc = zlib.crc32(json.dumps(case, sort_keys=True).encode())
+    if crc % 3:
+        return
+    gap = step - glen
+    moved = {}
+    before = json.loads(json.dumps({"genes": case["genes"], "protoclusters": case["protoclusters"]}))
+    for i, gene in enumerate(case["genes"][:-1]):
+        pick = zlib.crc32(f"{crc}/{i}".encode()) % 8
+        if pick < 3:
+            old_end = gene["loc"]["parts"][0][1]
+            new_end = old_end + gap + (1, 0, -1)[pick]
+            gene["loc"]["parts"][0][1] = new_end
+            moved[old_end] = new_end
+    for proto in case["protoclusters"]:
+        for key in ("core", "extent"):
+            for part in proto[key]:
+                part[1] = moved.get(part[1], part[1])
+            # an area over the origin still leaves part of the record out, as the generator above makes sure
+            if len(proto[key]) == 2 and proto[key][1][1] >= proto[key][0][0]:
+                case.update(before)
+                return
+    case["tightened"] = True
 
 
 def build(case, order):
@@ -134,6 +166,11 @@ def build(case, order):
         protos[idx] = proto
     record.create_candidate_clusters()
     return record, protos
+
+
+def dump_in_order(record):
+    return sorted([str(c.kind), [p.product for p in c.protoclusters], str(c.location)]
+                  for c in record.get_candidate_clusters())
 
 
 def dump(record):
@@ -295,6 +332,9 @@ def check_record(ctx, case, record, protos):
         elif ov(p.core_location, q.core_location):
             related = True
             ctx.count("op:interleaved")
+            if sum(max(0, min(e1, e2) - max(s1, s2)) for s1, e1 in ring.parts_of(p.core_location)
+                   for s2, e2 in ring.parts_of(q.core_location)) == 1:
+                ctx.count("shape:cores-overlap-by-one-base")
             if not together(p, q, hybrids + inter):
                 ctx.violate("overlapping-cores-imply-same-hybrid-or-interleaved", dict(facts0, **pair), case)
         elif ov(p.location, q.location):
@@ -419,6 +459,7 @@ def run_case(ctx, case, index=0):
         return
     related = check_record(ctx, case, record, protos)
     base = dump(record)
+    base_in_order = dump_in_order(record)
     ctx.case(("case", case), nontrivial=related and n >= 2, sample=dict(case, outcome=base) if related else None)
     for _ in range(2):
         order = base_order[:]
@@ -444,6 +485,10 @@ def run_case(ctx, case, index=0):
             ctx.violate("outcome-independent-of-insertion-order",
                         {"order": order, "base": base, "other": other_dump, "circular": case["circular"],
                          "differs_only_in_singles": only_singles, "promotion_shape": promoted}, case)
+        elif dump_in_order(other) != base_in_order:
+            # the members of a candidate are listed in an order too (its products, its qualifiers)
+            ctx.violate("member-order-independent-of-insertion-order",
+                        {"order": order, "base": base_in_order, "other": dump_in_order(other), "circular": case["circular"]}, case)
 
 
 def run(ctx):
